@@ -81,6 +81,16 @@ def pool_contents(rng):
     # one segment given in list form AND in enumerated form with another value: whichever the reader applies last must not depend on the hash seed
     pool['list-vs-enum'] = geo.params_to_text(seglist) + 'Gradients, 50, 40\nGradient 2, 70\nThicknesses, 2, 1\n'
     # requests made of a file plus overriding parameters: the content requested is the file's text followed by the overriding lines
+    # two contents claiming the same production tax credit (same lifetime, duration, value, inflation setting) and differing elsewhere: anything a run
+    # keeps per credit schedule (memoised builders, shared lists) is exercised by running one after the other, or one twice
+    ptc = {**geo.base_params(2, 1, 1, L=10, n=2), 'Production Tax Credit Electricity': 0.04, 'Production Tax Credit Duration': 6, 'Production Tax Credit Inflation Adjusted': True,
+           'Construction Years': 2}
+    pool['ptc-a'] = geo.params_to_text(ptc)
+    pool['ptc-b'] = geo.params_to_text({**ptc, 'Gradient 1': 58})
+    # a data file named relatively (the shipped example 5): the answer must not depend on what lies in the directory the caller happens to be in
+    ex5 = [f for f in geo.example_files() if f.name == 'example5.txt']
+    if ex5:
+        pool['reldata'] = geo.example_text(ex5[0])
     for c in QP_BASES:
         for ov, lines_ in OVERRIDES.items():
             pool[f'{c}+{ov}'] = pool[c] + ''.join(f'{a}, {b}\n' for a, b in lines_.items())
@@ -91,7 +101,7 @@ QP_BASES = ('ok0', 'ok1', 'dup-a', 'digit-a')
 OVERRIDES = {'g61': {'Gradient 1': 61}, 'u77': {'Utilization Factor': 0.77}}
 
 
-NEAR = [('mpf-a', 'mpf-b'), ('list-a', 'list-b'), ('dup-a', 'dup-b'), ('digit-a', 'digit-b'), ('seg-set', 'seg-default'), ('ok0', 'sparse'), ('ok1', 'sparse-heat'), ('badcalc', 'cyl'), ('ok0', 'badfile'), ('badfile', 'ok2'), ('list-vs-enum', 'list-a'), ('unit-a', 'unit-b')]
+NEAR = [('mpf-a', 'mpf-b'), ('list-a', 'list-b'), ('dup-a', 'dup-b'), ('digit-a', 'digit-b'), ('seg-set', 'seg-default'), ('ok0', 'sparse'), ('ok1', 'sparse-heat'), ('badcalc', 'cyl'), ('ok0', 'badfile'), ('badfile', 'ok2'), ('list-vs-enum', 'list-a'), ('unit-a', 'unit-b'), ('ptc-a', 'ptc-b'), ('ptc-a', 'ptc-a')]
 
 
 def reference(chk, pool):
@@ -199,7 +209,10 @@ def evaluate(chk: core.Check, n_hist):
         d = Path(chk.scratch) / f'hs{hs}'
         d.mkdir(exist_ok=True)
         ops = []
-        for j, c in enumerate(['list-vs-enum', 'dup-a', 'seg-default', 'ok0']):
+        # (the start directory holds a different file under the relative name example 5 uses for its temperature history)
+        (d / 'Examples').mkdir(exist_ok=True)
+        (d / 'Examples' / 'ReservoirOutput.txt').write_text(''.join(f'{t / 4}\t,\t{150 - t / 6}\n' for t in range(0, 121)))
+        for j, c in enumerate(['list-vs-enum', 'dup-a', 'seg-default', 'ok0', 'ptc-a', 'ptc-b', 'ptc-a'] + (['reldata'] if 'reldata' in pool else [])):
             ops += [['w', str(d / f'in{j}.txt'), c], ['q', str(d / f'in{j}.txt'), 0, 'fresh']]
         ops += [['m', str(d / 'in3.txt')], ['q', str(d / 'in3.txt'), 1, 'reused']]
         specs.append({'start_cwd': str(d), 'contents': pool, 'ops': ops, 'dir': str(d), 'overrides': OVERRIDES})
